@@ -32,6 +32,42 @@ def op_gen_data(job):
     return out
 
 
+def _digest(X):
+    return [list(X.shape), int(np.sum(X.astype(np.int64) * (np.arange(X.size).reshape(X.shape) % 97 + 1)) % (2 ** 31))]
+
+
+def op_gen_session(job):
+    """Sessions of GeneratorSession.tla on ONE instance.  job: argsets {name: kw}, seeds {id: seed}, sessions [[step,...]];
+    step = ["construct",0,s] | ["generate",a,s] | ["derive",0,0] | ["foreign",0,0].  Returns per session the digests of
+    the generate steps, and per (a, s) the digest of a fresh instance."""
+    fresh = {}
+    for a, kw in job['argsets'].items():
+        for sid, seed in job['seeds'].items():
+            kw2 = dict(kw, structure=_struct(kw.get('structure')), seed=seed)
+            fresh[f'{a}/{sid}'] = _digest(CategoricalClassification(seed=seed).generate_data(**kw2))
+    out = []
+    for sess in job['sessions']:
+        g, X, digs = None, None, []
+        try:
+            for kind, a, sid in sess:
+                if kind == 'construct':
+                    g = CategoricalClassification(seed=job['seeds'][str(sid)])
+                elif kind == 'generate':
+                    kw = job['argsets'][a]
+                    X = g.generate_data(**dict(kw, structure=_struct(kw.get('structure')), seed=job['seeds'][str(sid)]))
+                    digs.append([a, str(sid), _digest(X)])
+                elif kind == 'derive':
+                    with warnings.catch_warnings():
+                        warnings.simplefilter('ignore')
+                        g.generate_correlated(X, 0, r=0.5)       # draws from the global RNG, no re-seeding
+                else:
+                    np.random.random(3)
+            out.append({'digests': digs})
+        except Exception as e:  # noqa: BLE001
+            out.append({'error': repr(e)[:300]})
+    return {'fresh': fresh, 'sessions': out}
+
+
 def op_naive(job):
     from outrank.algorithms.synthetic_data_generators import generator_naive
     out = []
